@@ -1,8 +1,11 @@
 //! Subprocess driver for the real engine binary (black-box checks C03, C13, C16).
 //!
 //! One run = start the binary, write the whole input, close stdin, collect stdout to end of
-//! file and the exit status. The only use of wall time is the termination horizon: a process
-//! that has not exited `horizon` after its input ended is killed and reported as such.
+//! file and the exit status. The termination horizon is counted in the engine's own CPU time: a
+//! process is "not terminating" when it has consumed `horizon` of CPU without exiting, or when,
+//! `horizon` of wall time after its input ended, it is not even runnable (asleep or blocked: with
+//! stdin closed nothing can wake it). A process that is runnable but has not had its CPU share yet
+//! (busy machine) is waited for, up to 20 x horizon of wall time.
 
 use std::io::{Read, Write};
 use std::process::{Command, Stdio};
@@ -68,7 +71,7 @@ fn run_once(o: &Opts, input: &[u8]) -> Result<RunResult, String> {
         match child.try_wait() {
             Ok(Some(st)) => break st,
             Ok(None) => {
-                if t0.elapsed() >= o.horizon {
+                if t0.elapsed() >= o.horizon && stuck(child.id(), o.horizon, t0) {
                     timed_out = true;
                     let _ = child.kill();
                     break child.wait().map_err(|e| e.to_string())?;
@@ -87,6 +90,30 @@ fn run_once(o: &Opts, input: &[u8]) -> Result<RunResult, String> {
         timed_out,
         wall_ms: t0.elapsed().as_millis() as u64,
     })
+}
+
+/// Called once the wall horizon has passed: is the process really not terminating?
+fn stuck(pid: u32, horizon: Duration, t0: Instant) -> bool {
+    if t0.elapsed() >= horizon * 20 {
+        return true;
+    }
+    match crate::cputime::process_cpu(pid) {
+        None => true, // no /proc entry to consult: the plain wall horizon decides
+        Some((cpu, state)) => {
+            if cpu >= horizon {
+                return true;
+            }
+            if state == 'R' {
+                return false; // runnable, short of CPU: the machine is busy, not the engine stuck
+            }
+            // asleep or blocked: look again a little later, it may just have been between two slices
+            std::thread::sleep(Duration::from_millis(200));
+            match crate::cputime::process_cpu(pid) {
+                Some((cpu2, state2)) => state2 != 'R' && cpu2 == cpu,
+                None => false, // it has exited meanwhile
+            }
+        }
+    }
 }
 
 /// Lines of stdout with the wall-clock dependent `time` and `nps` fields of info lines removed.
@@ -146,6 +173,10 @@ impl Session {
             }
         });
         Ok(Session { child, stdin, rx })
+    }
+
+    pub fn pid(&self) -> u32 {
+        self.child.id()
     }
 
     pub fn send(&mut self, line: &str) {
